@@ -17,7 +17,9 @@ import (
 	"go/token"
 	"go/types"
 	"os"
+	"path"
 	"path/filepath"
+	"regexp"
 	"sort"
 	"strconv"
 	"strings"
@@ -47,6 +49,10 @@ type spec struct {
 	// Textual tweaks of property-irrelevant resource parameters, applied
 	// before parsing (skipped silently when the text is not found exactly once).
 	Tweaks []tweak `json:"tweaks"`
+	// Packages (repo-relative dirs) for which VerifResetGlobals() is generated: every package-level
+	// variable is assigned its initialiser again (its zero value when it has none). Generated from
+	// the current source, so it follows whatever variables the package has.
+	ResetGlobals []string `json:"resetglobals"`
 }
 
 type tweak struct {
@@ -65,6 +71,7 @@ func main() {
 	out := flag.String("out", "", "output directory")
 	specFile := flag.String("spec", "", "JSON spec file")
 	access := flag.String("access", "", "directory of overlay-only accessor files: <dir>/<pkg path>/<name>.go.in is added as <repo>/<pkg path>/zz_verif_<name>.go")
+	uses := flag.String("uses", "", "comma-separated directories of harness sources: an accessor file is only added when one of the names it declares occurs in them (empty: add all)")
 	flag.Parse()
 	if *out == "" || *specFile == "" {
 		fatal("usage: vinstr -repo DIR -out DIR -spec FILE")
@@ -120,6 +127,10 @@ func main() {
 	}
 	overlay := map[string]string{}
 	nfiles, npoints := 0, 0
+	resetPkgs, resetNames, resetByFile := map[string]bool{}, map[string][]string{}, map[string]string{}
+	for _, p := range sp.ResetGlobals {
+		resetPkgs[p] = true
+	}
 	for _, pkg := range pkgs {
 		if len(pkg.Errors) > 0 {
 			fatal("package %s: %v", pkg.PkgPath, pkg.Errors[0])
@@ -136,6 +147,13 @@ func main() {
 			r := &rewriter{fset: pkg.Fset, info: pkg.TypesInfo, pkgDir: rel, fine: fine, fineSeen: fineSeen, file: name,
 				redirect: sp.Redirect[rel]}
 			changed := r.file_(f)
+			if resetPkgs[rel] {
+				if fn := resetFunc(pkg.Fset, f, len(resetNames[rel])); fn != "" {
+					resetNames[rel] = append(resetNames[rel], fn)
+					resetByFile[name] = fn
+					changed = true
+				}
+			}
 			npoints += r.points
 			if _, tweaked := cfg.Overlay[name]; !changed && !tweaked {
 				continue
@@ -143,6 +161,9 @@ func main() {
 			var buf bytes.Buffer
 			if err := format.Node(&buf, pkg.Fset, f); err != nil {
 				fatal("%s: print: %v", name, err)
+			}
+			if fn, ok := resetByFile[name]; ok {
+				buf.WriteString(resetText[fn])
 			}
 			dst := filepath.Join(*out, rel, filepath.Base(name))
 			if err := os.MkdirAll(filepath.Dir(dst), 0o755); err != nil {
@@ -155,6 +176,32 @@ func main() {
 			nfiles++
 		}
 	}
+	for rel, fns := range resetNames {
+		// the package-level entry point calls the per-file functions
+		var b bytes.Buffer
+		pkgName := ""
+		for _, pkg := range pkgs {
+			if r, _ := filepath.Rel(*repo, filepath.Dir(pkg.GoFiles[0])); r == rel {
+				pkgName = pkg.Name
+			}
+		}
+		fmt.Fprintf(&b, "package %s\n\n// VerifResetGlobals is generated by vinstr: every package-level variable gets its initial value again.\nfunc VerifResetGlobals() {\n", pkgName)
+		for _, fn := range fns {
+			fmt.Fprintf(&b, "\t%s()\n", fn)
+		}
+		b.WriteString("}\n")
+		dst := filepath.Join(*out, rel, "zz_verif_resetglobals.go")
+		os.MkdirAll(filepath.Dir(dst), 0o755)
+		if err := os.WriteFile(dst, b.Bytes(), 0o644); err != nil {
+			fatal("%v", err)
+		}
+		overlay[filepath.Join(*repo, rel, "zz_verif_resetglobals.go")] = dst
+	}
+	for p := range resetPkgs {
+		if len(resetNames[p]) == 0 {
+			fatal("resetglobals: package %q has no package-level variables (or is not in \"packages\")", p)
+		}
+	}
 	for f := range fine {
 		if !fineSeen[f] {
 			fatal("fine-grained function %q not found", f)
@@ -164,8 +211,24 @@ func main() {
 		overlay[filepath.Join(*repo, target)] = src
 	}
 	if *access != "" {
+		var usesSrc []byte
+		for _, d := range strings.Split(*uses, ",") {
+			if d == "" {
+				continue
+			}
+			ents, _ := os.ReadDir(d)
+			for _, e := range ents {
+				if strings.HasSuffix(e.Name(), ".go") {
+					b, _ := os.ReadFile(filepath.Join(d, e.Name()))
+					usesSrc = append(usesSrc, b...)
+				}
+			}
+		}
 		filepath.Walk(*access, func(path string, fi os.FileInfo, err error) error {
 			if err != nil || fi.IsDir() || !strings.HasSuffix(path, ".go.in") {
+				return nil
+			}
+			if *uses != "" && !accessorUsed(path, usesSrc) {
 				return nil
 			}
 			rel, _ := filepath.Rel(*access, path)
@@ -185,6 +248,82 @@ func main() {
 	fmt.Printf("vinstr: %d packages, %d files rewritten, %d operations instrumented\n", len(pkgs), nfiles, npoints)
 }
 
+// accessorUsed: does the harness source mention a Verif* name the accessor file declares?
+func accessorUsed(file string, src []byte) bool {
+	b, err := os.ReadFile(file)
+	if err != nil {
+		return false
+	}
+	for _, m := range accessorName.FindAllSubmatch(b, -1) {
+		if bytes.Contains(src, m[1]) {
+			return true
+		}
+	}
+	return false
+}
+
+var accessorName = regexp.MustCompile(`(?m)^func (?:\([^)]*\) )?(Verif[A-Za-z0-9_]*)`)
+
+var resetText = map[string]string{}
+
+// resetFunc records the text of a function that re-initialises the package-level variables declared
+// in f and returns its name ("" when f declares none).
+func resetFunc(fset *token.FileSet, f *ast.File, n int) string {
+	var body bytes.Buffer
+	for _, d := range f.Decls {
+		gd, ok := d.(*ast.GenDecl)
+		if !ok || gd.Tok != token.VAR {
+			continue
+		}
+		for _, sp := range gd.Specs {
+			vs := sp.(*ast.ValueSpec)
+			var names []string
+			blank := false
+			for _, id := range vs.Names {
+				names = append(names, id.Name)
+				blank = blank || id.Name == "_"
+			}
+			if blank {
+				continue
+			}
+			if len(vs.Values) > 0 {
+				var vals []string
+				for _, v := range vs.Values {
+					var b bytes.Buffer
+					format.Node(&b, fset, v)
+					vals = append(vals, b.String())
+				}
+				fmt.Fprintf(&body, "\t%s = %s\n", strings.Join(names, ", "), strings.Join(vals, ", "))
+			} else if vs.Type != nil {
+				var b bytes.Buffer
+				format.Node(&b, fset, vs.Type)
+				for _, nm := range names {
+					fmt.Fprintf(&body, "\t{\n\t\tvar zero %s\n\t\t%s = zero\n\t}\n", b.String(), nm)
+				}
+			}
+		}
+	}
+	// init functions of the file run again after the variables are reset: init() cannot be called, so
+	// each is renamed and a new init() forwards to it
+	var inits bytes.Buffer
+	k := 0
+	for _, d := range f.Decls {
+		if fd, ok := d.(*ast.FuncDecl); ok && fd.Recv == nil && fd.Name.Name == "init" && fd.Body != nil {
+			nm := fmt.Sprintf("verifInit%d_%d", n, k)
+			k++
+			fd.Name = ast.NewIdent(nm)
+			fmt.Fprintf(&body, "\t%s()\n", nm)
+			fmt.Fprintf(&inits, "\nfunc init() { %s() }\n", nm)
+		}
+	}
+	if body.Len() == 0 {
+		return ""
+	}
+	name := fmt.Sprintf("verifResetGlobals%d", n)
+	resetText[name] = fmt.Sprintf("\n// generated by vinstr\nfunc %s() {\n%s}\n%s", name, body.String(), inits.String())
+	return name
+}
+
 type rewriter struct {
 	fset     *token.FileSet
 	info     *types.Info
@@ -196,6 +335,22 @@ type rewriter struct {
 	tmp      int
 	points   int
 	usedVrt  bool
+}
+
+// fineGroup finds the fine-grained group of a function: exact name first, then glob patterns
+// ("destination.Writer.*", "route.dispatch*") so that helpers split off by a refactoring stay covered.
+func (r *rewriter) fineGroup(key string) (group, pattern string, ok bool) {
+	if g, ok := r.fine[key]; ok {
+		return g, key, true
+	}
+	for pat, g := range r.fine {
+		if strings.ContainsAny(pat, "*?[") {
+			if m, _ := path.Match(pat, key); m {
+				return g, pat, true
+			}
+		}
+	}
+	return "", "", false
 }
 
 func (r *rewriter) errf(n ast.Node, format string, a ...interface{}) {
@@ -279,8 +434,8 @@ func (r *rewriter) file_(f *ast.File) bool {
 				key = r.pkgDir + "." + id.Name + "." + fd.Name.Name
 			}
 		}
-		if g, ok := r.fine[key]; ok {
-			r.fineSeen[key] = true
+		if g, pat, ok := r.fineGroup(key); ok {
+			r.fineSeen[pat] = true
 			r.yields(fd.Body, g)
 		}
 	}
